@@ -2,6 +2,7 @@
 // compare with their reviewed expectations:
 //
 //	maprange <file>:<func>  <expr>  <type>      every `range` over a map in non-test code of pkg/ and internal/
+//	randfield <file>:<type>.<field> <type>      struct fields that hold a random generator
 //	globalrand <file>:<func> <call>             uses of math/rand package-level functions, time.Now, crypto/rand
 //	globalvar <file> <name> <type>              package-level variables of mutable type (map, slice, pointer, struct, chan, func)
 //	globalwrite <file>:<func> <name>            assignments to / mutations of package-level variables outside init()
@@ -45,6 +46,34 @@ func main() {
 			fname := strings.TrimPrefix(p.Fset.Position(f.Pos()).Filename, root+"/")
 			if strings.HasSuffix(fname, "_test.go") || strings.HasSuffix(fname, ".pb.go") || strings.Contains(fname, "verif_hook") {
 				continue
+			}
+			// struct fields that hold a random generator: a generator kept in an object can outlive the run it was
+			// seeded for (every holder is a reviewed site)
+			for _, d := range f.Decls {
+				gd, ok := d.(*ast.GenDecl)
+				if !ok || gd.Tok != token.TYPE {
+					continue
+				}
+				for _, sp := range gd.Specs {
+					ts := sp.(*ast.TypeSpec)
+					st, ok := ts.Type.(*ast.StructType)
+					if !ok {
+						continue
+					}
+					for _, fl := range st.Fields.List {
+						t := p.TypesInfo.TypeOf(fl.Type)
+						if t == nil {
+							continue
+						}
+						if s := t.String(); strings.Contains(s, "math/rand.Rand") || strings.Contains(s, "math/rand.Source") {
+							names := "embedded"
+							if len(fl.Names) > 0 {
+								names = fl.Names[0].Name
+							}
+							out = append(out, fmt.Sprintf("randfield %s:%s.%s %s", fname, ts.Name.Name, names, s))
+						}
+					}
+				}
 			}
 			for _, d := range f.Decls {
 				gd, ok := d.(*ast.GenDecl)
